@@ -356,6 +356,10 @@ package vm
 //@   ensures[C03] @first old(okInCmp(b) && !fl(vm, state.FLAG_INMATCH) && vm.st.input != nil && matches(vm, b) && icNode(b) == "<"
 //@     && depth(vm.st) > 0 && vm.st.SizeIdx == 0) ==> result1 == nil && posKept(vm) && fl(vm, state.FLAG_READIN) && fl(vm, state.FLAG_INMATCH)
 //@   ensures[C03] @otherflags state.clientFlagsSame(vm.st) && forall(n, 2, 8, bit(vm.st.Flags[0], n) == old(bit(vm.st.Flags[0], n)))
+// the instructions that followed this INCMP stay in front of whatever code the move loads:
+// they are skipped while INMATCH is set and never reach a later input round out of order
+//@   ensures[C03] @order old(okInCmp(b)) && result1 == nil ==> len(result0) >= old(len(icRest(b)))
+//@     && forall(i, 0, old(len(icRest(b))), result0[i] == old(icRest(b)[i]))
 //@   ensures[C05,C07] @unmapped result1 == nil && !posKept(vm) ==> unmapped(vm)
 //@   ensures[C08] @lockstep old(levels(vm.ca)) == old(depth(vm.st)) + 1 ==> levels(vm.ca) == depth(vm.st) + 1
 
